@@ -189,8 +189,8 @@ def path_condition(func_node: ast.AST, target: ast.AST, pm: Optional[Dict] = Non
                 for g in par.generators:
                     for t in g.ifs:
                         conds.append((t, True, []))
-        elif isinstance(par, ast.BoolOp):
-            idx = par.values.index(node)
+        elif isinstance(par, ast.BoolOp) and any(v is node for v in par.values):
+            idx = [i for i, v in enumerate(par.values) if v is node][0]
             for prev in par.values[:idx]:
                 conds.append((prev, isinstance(par.op, ast.And), []))
         for fieldname in ("body", "orelse", "finalbody"):
